@@ -4,7 +4,8 @@ Proof obligations: coq/theories/Props/C01.v (model: Model/C01_Scales.v, lemmas: 
 independent oracle: Spec/C01_IersTaiUtc.v).  Regenerated on every run from the tree under test:
 Gen/C01_TaiUtc.v (the rows of midgard/data/_taiutc.txt as exact decimals AND the loaded _TAIUTC doubles),
 Gen/C01_Const.v (L_G, T_0 of midgard/math/constant.txt as exact decimals AND the loaded doubles),
-Gen/C01_Graph.v (edge list of _time._CONVERSIONS['TimeArray'] in registration order).
+Gen/C01_Graph.v (edge list of _time._CONVERSIONS['TimeArray'] in registration order), Gen/C01_Hops.v (bodies of delta_gps_tai /
+delta_tai_tt / delta_tcg_tt and the delta each _x2y converter adds, by a fail-closed ast pass).
 Correspondence: real Time(...).<scale> conversions for all 25 ordered scale pairs at epochs dense around every
 table boundary and at random epochs 1961-2100, scalar / length-1 / length-n (permuted); the exact doubles
 (jd1, jd2) of input and result are shipped to Coq and compared there with the rational model within 1 ns."""
@@ -32,7 +33,11 @@ META = {
         "adds exactly the published offset/drift of the unique row in force for every epoch; TAI-GPS = 19 s, TT-TAI = 32.184 s, "
         "TCG-TT = L_G/(1-L_G)(TT-T0) for every epoch with exact inverses; UTC->TAI->UTC is the identity on every leap-second "
         "row and within 4 ns on the drift rows for every epoch of the stated domain; all 25 ordered pairs are routable by the "
-        "modelled breadth-first search and A->B->C equals A->C (exactly when UTC is not the intermediate scale, within 4 ns otherwise). "
+        "modelled breadth-first search; A->B->C equals A->C for all 125 routes and A->B->A is the identity for all 25 pairs within the "
+        "property's 10 ns on a computable domain (utc_ok: everything from 1961 to 9999-12-30 except the first/last microsecond of the "
+        "pre-1972 drift rows and the UTC labels skipped by a downward step), exactly when UTC is not revisited; array conversions are "
+        "element-aligned under any re-indexing; the code of delta_gps_tai/delta_tai_tt/delta_tcg_tt and of the _x2y converters, translated "
+        "by a fail-closed ast pass on every run, returns exactly 19 s, 32.184 s, L_G/(1-L_G)(TT-T0) and equals the model's hops. "
         "The model is tied to the code on every run by a correspondence check: real Time conversions (all 25 pairs, epochs "
         "dense around each of the 41 table boundaries and random 1961-2100, scalar/length-1/length-n permuted arrays) are "
         "compared inside Coq with the model on the exact doubles within 1 ns."),
@@ -46,8 +51,9 @@ THEOREMS = [
     "taiutc_wf", "taiutc_loaded_is_text", "taiutc_matches_published", "constants_match_published",
     "row_unique", "utc_tai_defining", "gps_tai_19", "tt_tai_32184", "tcg_tt_LG", "hop_inverse_exact",
     "utc_tai_utc", "utc_tai_utc_exact_on_leap_rows", "tai_utc_tai",
-    "routes_total", "route_is_tree_path", "two_hop_path_independent_exact", "two_hop_path_independent_partial",
-    "roundtrip_all_pairs", "to_scale_pointwise", "c01_row_by_float_sum_refuted", "utc_tai_utc_boundary_refuted",
+    "routes_total", "route_is_tree_path", "two_hop_path_independent_exact", "hop_error_compose", "hop_types", "utc_ok_domain",
+    "two_hop_path_independent", "roundtrip_all_pairs_10ns", "roundtrip_all_pairs", "to_scale_pointwise", "array_alignment",
+    "code_constants_match_spec", "code_hops_match_model", "c01_row_by_float_sum_refuted", "utc_tai_utc_boundary_refuted",
 ]
 
 REQ = "From Verif Require Import Lib.Dyadic Model.C01_Scales."
@@ -85,6 +91,148 @@ def read_constants_text(repo):
     for name in ("L_G", "T_0", "T_0_jd1", "T_0_jd2"):
         out[name] = _dec(cp.get(name, "default"))
     return out
+
+
+# ----------------------------------------------------------------------------- fail-closed ast pass over the delta_* / _x2y bodies
+class Refuse(Exception):
+    """the source has a shape the translator does not know: nothing is guessed"""
+
+
+UNIT_NAMES = {"seconds2day": "(1 / 86400)", "second2day": "(1 / 86400)", "day2seconds": "86400", "day2second": "86400"}
+CONST_NAMES = ("L_G", "T_0", "T_0_jd1", "T_0_jd2")
+
+
+def _coq_expr(node, src, param, env):
+    """arithmetic expression over time.jd1/jd2, Unit.<x>, constant.<X>, local names, decimal literals -> Coq term over Q"""
+    import ast
+    if isinstance(node, ast.Constant) and isinstance(node.value, (int, float)) and not isinstance(node.value, bool):
+        text = ast.get_source_segment(src, node)
+        return emit.q(_dec(text.replace("_", "")))
+    if isinstance(node, ast.Name):
+        if node.id in env:
+            return env[node.id]
+        raise Refuse(f"unknown name {node.id!r}")
+    if isinstance(node, ast.Attribute) and isinstance(node.value, ast.Name):
+        base, attr = node.value.id, node.attr
+        if base == param and attr in ("jd1", "jd2"):
+            return "j1" if attr == "jd1" else "j2"
+        if base == "Unit" and attr in UNIT_NAMES:
+            return UNIT_NAMES[attr]
+        if base == "constant" and attr in CONST_NAMES:
+            return f"{attr}_txt"
+        raise Refuse(f"unknown attribute {base}.{attr}")
+    if isinstance(node, ast.BinOp) and type(node.op) in (ast.Add, ast.Sub, ast.Mult, ast.Div):
+        op = {ast.Add: "+", ast.Sub: "-", ast.Mult: "*", ast.Div: "/"}[type(node.op)]
+        return f"({_coq_expr(node.left, src, param, env)} {op} {_coq_expr(node.right, src, param, env)})"
+    if isinstance(node, ast.UnaryOp) and type(node.op) in (ast.USub, ast.UAdd):
+        inner = _coq_expr(node.operand, src, param, env)
+        return f"(- {inner})" if isinstance(node.op, ast.USub) else inner
+    if isinstance(node, ast.IfExp):
+        return f"(if {_coq_scale_test(node.test, param)} then {_coq_expr(node.body, src, param, env)} else {_coq_expr(node.orelse, src, param, env)})"
+    raise Refuse(f"expression {ast.dump(node)[:80]}")
+
+
+def _coq_scale_test(t, param):
+    """<param>.scale == "<scale>"  ->  Coq boolean"""
+    import ast
+    if not (isinstance(t, ast.Compare) and len(t.ops) == 1 and isinstance(t.ops[0], ast.Eq)
+            and isinstance(t.left, ast.Attribute) and isinstance(t.left.value, ast.Name) and t.left.value.id == param
+            and t.left.attr == "scale" and isinstance(t.comparators[0], ast.Constant) and isinstance(t.comparators[0].value, str)):
+        raise Refuse("test is not <time>.scale == '<scale>'")
+    return f"(scale =? {emit.s(t.comparators[0].value)})%string"
+
+
+def _coq_block(stmts, src, param, env):
+    """assignments of expressions to local names, then `return e` or `if <param>.scale == "<s>": ... else: ...`"""
+    import ast
+    env = dict(env)
+    for k, st in enumerate(stmts):
+        if isinstance(st, ast.Expr) and isinstance(st.value, ast.Constant) and isinstance(st.value.value, str):
+            continue                                      # docstring
+        if isinstance(st, ast.Assign) and len(st.targets) == 1 and isinstance(st.targets[0], ast.Name):
+            env[st.targets[0].id] = _coq_expr(st.value, src, param, env)
+            continue
+        if isinstance(st, ast.Return) and st.value is not None:
+            if k != len(stmts) - 1:
+                raise Refuse("statements after return")
+            return _coq_expr(st.value, src, param, env)
+        if isinstance(st, ast.If):
+            test = _coq_scale_test(st.test, param)
+            if k != len(stmts) - 1 or not st.orelse:
+                raise Refuse("if without else / statements after if")
+            a = _coq_block(st.body, src, param, env)
+            b = _coq_block(st.orelse, src, param, env)
+            return f"(if {test} then {a} else {b})"
+        raise Refuse(f"statement {type(st).__name__}")
+    raise Refuse("no return")
+
+
+def translate_hops(repo, conversions):
+    """Gen/C01_Hops.v: the bodies of delta_gps_tai / delta_tai_tt / delta_tcg_tt as Coq functions of (scale, jd1, jd2), and for
+    every registered edge which delta function its _x2y converter adds to jd2.  Raises Refuse on any unknown shape."""
+    import ast
+    path = os.path.join(repo, "midgard", "data", "_time.py")
+    src = open(path, encoding="utf8").read()
+    tree = ast.parse(src)
+    funcs = {n.name: n for n in tree.body if isinstance(n, ast.FunctionDef)}
+    out = "From Coq Require Import ZArith QArith String List.\nFrom Verif Require Import Gen.C01_Const.\nImport ListNotations.\nOpen Scope Q_scope.\n"
+    out += "(* translated from midgard/data/_time.py by the fail-closed ast pass of harness/drivers/c01.py: value returned by delta_*(time)\n   [days] as a function of time.scale, time.jd1, time.jd2 *)\n"
+    deltas = {}
+    for name in ("delta_gps_tai", "delta_tai_tt", "delta_tcg_tt"):
+        f = funcs.get(name)
+        if f is None or len(f.args.args) != 1 or f.args.vararg or f.args.kwarg or f.decorator_list:
+            raise Refuse(f"{name}: not a plain one-argument module function")
+        body = _coq_block(f.body, src, f.args.args[0].arg, {})
+        out += f"Definition code_{name} (scale : string) (j1 j2 : Q) : Q :=\n  {body}.\n"
+        deltas[name] = True
+    table_hops, rows = [], []
+    for (a, b), fn in conversions.items():
+        f = funcs.get(getattr(fn, "__name__", None))
+        if f is None or len(f.args.args) != 1 or f.decorator_list:
+            raise Refuse(f"converter of {a}->{b} is not a plain module function")
+        p = f.args.args[0].arg
+        stmts = [st for st in f.body if not (isinstance(st, ast.Expr) and isinstance(st.value, ast.Constant))]
+        if len(stmts) != 1 or not isinstance(stmts[0], ast.Return) or not isinstance(stmts[0].value, ast.Tuple) or len(stmts[0].value.elts) != 2:
+            raise Refuse(f"{f.name}: body is not `return <jd1>, <jd2>`")
+        e1, e2 = stmts[0].value.elts
+
+        def is_attr(n, attr):
+            return isinstance(n, ast.Attribute) and isinstance(n.value, ast.Name) and n.value.id == p and n.attr == attr
+        if not is_attr(e1, "jd1") or not (isinstance(e2, ast.BinOp) and isinstance(e2.op, ast.Add)):
+            raise Refuse(f"{f.name}: not (x.jd1, x.jd2 + delta(x))")
+        l, r = (e2.left, e2.right) if is_attr(e2.left, "jd2") else (e2.right, e2.left)
+        if not (is_attr(l, "jd2") and isinstance(r, ast.Call) and isinstance(r.func, ast.Name) and len(r.args) == 1
+                and isinstance(r.args[0], ast.Name) and r.args[0].id == p and not r.keywords):
+            raise Refuse(f"{f.name}: not (x.jd1, x.jd2 + delta(x))")
+        if r.func.id == "delta_tai_utc":
+            table_hops.append((a, b))
+        elif r.func.id in deltas:
+            rows.append((a, b, r.func.id))
+        else:
+            raise Refuse(f"{f.name}: unknown delta function {r.func.id}")
+    out += "(* what the registered converter of edge (a, b) adds to jd2: delta_<fn>(time) with time.scale = a *)\n"
+    out += "Definition code_hop (a b : string) : option (Q -> Q -> Q) :=\n"
+    for a, b, fn in rows:
+        out += f"  if ((a =? {emit.s(a)}) && (b =? {emit.s(b)}))%string%bool then Some (code_{fn} {emit.s(a)}) else\n"
+    out += "  None.\n"
+    out += "(* edges whose converter adds delta_tai_utc (table lookup; modelled by hand, tied by the correspondence) *)\n"
+    out += "Definition code_table_hops : list (string * string) :=\n  [" + "; ".join(f"({emit.s(a)}, {emit.s(b)})" for a, b in table_hops) + "].\n"
+    out += "Definition hops_translated : bool := true.\n"
+    return out
+
+
+HOPS_REFUSED = """From Coq Require Import ZArith QArith String List.
+Import ListNotations.
+Open Scope Q_scope.
+(* the ast pass REFUSED the current source: {reason}
+   The definitions below are placeholders; the theorems code_hops_match_model / code_constants_match_spec do not hold for them. *)
+Definition code_delta_gps_tai (scale : string) (j1 j2 : Q) : Q := 0.
+Definition code_delta_tai_tt (scale : string) (j1 j2 : Q) : Q := 0.
+Definition code_delta_tcg_tt (scale : string) (j1 j2 : Q) : Q := 0.
+Definition code_hop (a b : string) : option (Q -> Q -> Q) := None.
+Definition code_table_hops : list (string * string) := [].
+Definition hops_translated : bool := false.
+"""
 
 
 def regen(ctx):
@@ -125,6 +273,13 @@ def regen(ctx):
     txt += "Definition edges : list (string * string) :=\n [ " + "; ".join(f"({emit.s(a)}, {emit.s(b)})".replace("%string", "") for a, b in edges) + " ].\n"
     txt += "Definition scales_registered : list string :=\n [ " + "; ".join(emit.s(a).replace("%string", "") for a in _time._SCALES["TimeArray"]) + " ].\n"
     ctx.regen("C01_Graph", txt)
+
+    try:
+        ctx.regen("C01_Hops", translate_hops(repo, _time._CONVERSIONS["TimeArray"]))
+    except Refuse as e:
+        ctx.notes.append(f"ast pass refused: {e}")
+        ctx.log(f"ast pass over delta_*/_x2y REFUSED: {e}")
+        ctx.regen("C01_Hops", HOPS_REFUSED.format(reason=str(e).replace("*)", "* )")))
     return dict(rows=rows, const=c, edges=edges)
 
 
